@@ -98,6 +98,34 @@ FailingClause(K, ch, pa) ==
   ELSE IF ~AcyclicOf(K, ch, pa) THEN "Acyclic"
   ELSE ""
 
+\* ------------------------------- local well-formedness (binding B, code -> spec)
+\* The recorder of real calls projects only the neighbourhood of the edited
+\* node: nodes 1..n, of which the set Full have their child list recorded (the
+\* edited node completely; the parents of the items only as far as the listed
+\* nodes are in the neighbourhood).  KP[n] is the kind whose format the node
+\* applies to its children ("?" = not judged, "Leaf" = accepts none), KC[n] the
+\* kind it counts as when it is a child ("?" = unknown, not judged); ab[p] are
+\* the real ancestors of p that are in the neighbourhood.  The clauses are the
+\* ones of WellFormedOf, restricted to what the neighbourhood determines.
+LocalListedImpliesParent(Full, ch, pa) ==
+  \A p \in Full : \A i \in DOMAIN ch[p] : pa[ch[p][i]] = p
+LocalParentListsOnce(n, Full, ch, pa) ==
+  \A c \in 1..n : pa[c] \in Full => Occurs(ch[pa[c]], c) = 1
+LocalParentChildAgree(n, Full, ch, pa) ==
+  LocalListedImpliesParent(Full, ch, pa) /\ LocalParentListsOnce(n, Full, ch, pa)
+LocalValidAtPosition(KP, KC, Full, ch) ==
+  \A p \in Full : KP[p] # "?" =>
+     \A i \in DOMAIN ch[p] : KC[ch[p][i]] = "?" \/ ValidAt(KP[p], i - 1, KC[ch[p][i]])
+LocalAcyclic(n, Full, ch, pa, ab) ==
+  /\ \A p \in Full : /\ p \notin SeqSet(ab[p])
+                     /\ \A i \in DOMAIN ch[p] : ch[p][i] # p /\ ch[p][i] \notin SeqSet(ab[p])
+  /\ \A c \in 1..n : c \notin AncK(pa, {pa[c]} \ {None}, n)
+LocalFailingClause(n, KP, KC, Full, ch, pa, ab) ==
+  IF ~LocalParentChildAgree(n, Full, ch, pa) THEN "ParentChildAgree"
+  ELSE IF ~LocalValidAtPosition(KP, KC, Full, ch) THEN "ValidAtPosition"
+  ELSE IF ~LocalAcyclic(n, Full, ch, pa, ab) THEN "Acyclic"
+  ELSE ""
+
 \* ---------------------------------------------- Python list index semantics
 PyIdx(i, len)    == IF i < 0 THEN i + len ELSE i                \* negative = from the end
 ClampIdx(j, len) == IF j < 0 THEN 0 ELSE IF j > len THEN len ELSE j   \* list.insert clamps
